@@ -1,5 +1,7 @@
 /* mutex.c — correspondence harness for src/fiber_mutex.c (C03).
  * usage: mutex <kernel threads> <script>; ops: l lock, t trylock, u unlock, y yield */
+/* crowds: more simultaneous lockers than 127 / 255 (widths of locals and fields) */
+#define VH_MAXF 400
 #include "rtcommon.h"
 #include "fiber_mutex.h"
 
